@@ -12,6 +12,7 @@ MCNext == \/ \E p \in Parts : Produce(p) /\ Rec([op |-> "send", p |-> p])
           \/ Yield /\ Rec([op |-> "next"])
           \/ Deliver /\ UNCHANGED hist
           \/ IntervalTick /\ UNCHANGED hist
+          \/ ZombieTick /\ UNCHANGED hist
           \/ Drop /\ Rec([op |-> "recreate"])
           \/ Recreate /\ UNCHANGED hist
 MCSpec == MCInit /\ [][MCNext]_mvars
